@@ -60,5 +60,8 @@ Accounted ==
         \/ \E i \in 1..Len(out) : out[i].start <= p /\ p < out[i].start + Len(out[i].val)
 
 Finished == phase \in {"done", "err"}
-Export == Finished => PrintT("@@" \o ToJson([text |-> text, out |-> out, err |-> err, st |-> st, phase |-> phase]))
+\* when the whole text is one literal: the Constant.type its spelling implies (C10)
+CType == IF phase = "done" /\ Len(out) = 1 /\ IsLiteralClass(out[1].ty) /\ out[1].val = text
+         THEN ConstantType(out[1].ty, out[1].val) ELSE ""
+Export == Finished => PrintT("@@" \o ToJson([text |-> text, out |-> out, err |-> err, st |-> st, phase |-> phase, ctype |-> CType]))
 =============================================================================
